@@ -101,7 +101,12 @@ NOT_YET = {}
 ALL = ["C%02d" % i for i in range(1, 20)]
 
 
+FUZZ_PROPS = ["C01", "C02", "C03", "C04", "C05", "C08", "C09", "C10", "C13", "C14", "C15"]
+
+
 def main():
+    for pid in FUZZ_PROPS:
+        CHECKS[pid]["technique"] += "; the thorough tier adds a coverage-guided libFuzzer campaign whose input bytes are the same tape, decoded and checked by the same code"
     checks = []
     for pid in ALL:
         if pid not in CHECKS:
